@@ -413,3 +413,35 @@ def revise_model(ctx, W, d, t, kinds=("add_effect", "drop_disjunct")):
     W2.dom_text = W2.dom_text_plain = raw
     ctx.probes[f"model_revised_{kind}"] += 1
     return W2, what
+
+
+def inspect_object(obj, depth=2, seen=None):
+    """an observer (a debugger, a logging formatter, a test's assertion message) reads every public property and the
+    printed form of an object and of the library objects it holds; reading is all it does.  Errors are ignored."""
+    seen = set() if seen is None else seen
+    if id(obj) in seen or depth < 0:
+        return
+    seen.add(id(obj))
+    cls = type(obj)
+    if not cls.__module__.startswith("pddl_plus_parser"):
+        if isinstance(obj, (list, tuple, set, frozenset)):
+            for x in list(obj)[:50]:
+                inspect_object(x, depth - 1, seen)
+        elif isinstance(obj, dict):
+            for x in list(obj.values())[:50]:
+                inspect_object(x, depth - 1, seen)
+        return
+    for name in dir(cls):
+        if name.startswith("_"):
+            continue
+        if isinstance(getattr(cls, name, None), property):
+            try:
+                inspect_object(getattr(obj, name), depth - 1, seen)
+            except Exception:
+                pass
+    try:
+        str(obj)
+    except Exception:
+        pass
+    for v in list(getattr(obj, "__dict__", {}).values()):
+        inspect_object(v, depth - 1, seen)
